@@ -121,7 +121,14 @@ class RenderContext:
         """Resolve the variable _path_ in the current namespace."""
         it = iter(path)
         root = next(it)
-        assert isinstance(root, str)
+
+        if not isinstance(root, str):
+            # A bracketed root segment, like `[x]`, that is not a variable name.
+            if default == UNDEFINED:
+                kind = root.__class__.__name__
+                hint = f"expected a variable name, found {kind}"
+                return self.env.undefined(f"<{kind}>", hint=hint, token=token)
+            return default
 
         try:
             obj = self.scope[root]
@@ -157,7 +164,14 @@ class RenderContext:
         """Asynchronously resolve the variable _path_ in the current namespace."""
         it = iter(path)
         root = next(it)
-        assert isinstance(root, str)
+
+        if not isinstance(root, str):
+            # A bracketed root segment, like `[x]`, that is not a variable name.
+            if default == UNDEFINED:
+                kind = root.__class__.__name__
+                hint = f"expected a variable name, found {kind}"
+                return self.env.undefined(f"<{kind}>", hint=hint, token=token)
+            return default
 
         try:
             obj = self.scope[root]
